@@ -1,5 +1,5 @@
-CONSTANTS Discoveries = {"flag", "cwd", "parent", "grandparent", "flag_over_cwd", "flag_over_parent"}
+CONSTANTS Discoveries = {"flag", "cwd", "parent", "grandparent", "flag_over_cwd", "flag_over_parent", "cwd_over_parent", "parent_over_grandparent", "cwd_over_all"}
 INIT Init
 NEXT Next
-INVARIANTS Emit ModelAgrees
+INVARIANTS Emit ModelAgrees DiscoveryOk
 CHECK_DEADLOCK FALSE
